@@ -16,13 +16,15 @@ func init() {
 	register("C18", false, func(p *core.Prog, r *core.Report, tier string) { tables.C18(p, r) })
 	register("C01", false, func(p *core.Prog, r *core.Report, tier string) { tables.C01(p, r) })
 	register("C16", false, func(p *core.Prog, r *core.Report, tier string) { tables.C16(p, r) })
-	register("C02", false, func(p *core.Prog, r *core.Report, tier string) {
+	register("C02", true, func(p *core.Prog, r *core.Report, tier string) {
+		effects.PureOps(9, "Insert", "Embed", "(FeatureSlice).Insert", "*.Shift", "*.Expand")(p, r)
 		conserve.C02(p, r)
 		siblings.Shift(p, r)
 		siblings.Expand(p, r)
 		tables.OriginLen(p, r)
 	})
-	register("C03", false, func(p *core.Prog, r *core.Report, tier string) {
+	register("C03", true, func(p *core.Prog, r *core.Report, tier string) {
+		effects.PureOps(11, "Delete", "Erase", "Slice", "(FeatureSlice).Filter", "(GenBankFields).Slice", "*.Shift", "*.Expand")(p, r)
 		conserve.C03(p, r)
 		conserve.Window(p, r)
 		orders.Intervals(p, r)
@@ -42,15 +44,22 @@ func init() {
 		conserve.SelectorRules(p, r)
 		r.NotDecided = append(r.NotDecided, "selector grammar and regexp semantics", "the tie-break and the recursive cases of LocationLess", "boolean-algebra laws of And/Or/Not", "the binary search of FeatureSlice.Insert")
 	})
-	register("C04", false, func(p *core.Prog, r *core.Report, tier string) {
+	register("C04", true, func(p *core.Prog, r *core.Report, tier string) {
+		effects.PureOps(8, "Rotate", "(FeatureSlice).Insert", "*.Shift", "*.Normalize")(p, r)
 		conserve.C04(p, r)
 		conserve.ModNormalise(p, r)
+		conserve.MergeRanged(p, r)
 		siblings.Normalize(p, r)
 	})
-	register("C05", false, func(p *core.Prog, r *core.Report, tier string) {
+	register("C05", true, func(p *core.Prog, r *core.Report, tier string) {
+		effects.PureOps(10, "Reverse", "Complement", "Transcribe", "*.Reverse", "*.Complement")(p, r)
 		conserve.C05(p, r)
 		siblings.Reverse(p, r)
 		tables.Alphabet(p, r)
+	})
+	register("C06", false, func(p *core.Prog, r *core.Report, tier string) {
+		conserve.PushRules(p, r)
+		conserve.PrintParse(p, r)
 	})
 	register("C15", false, func(p *core.Prog, r *core.Report, tier string) {
 		conserve.C15(p, r)
@@ -67,6 +76,7 @@ func init() {
 	register("C12", true, func(p *core.Prog, r *core.Report, tier string) {
 		traps.RepairNoPanic(p, r)
 		conserve.RepairRules(p, r)
+		conserve.MergeRanged(p, r)
 		r.NotDecided = append(r.NotDecided, "that a cut feature is restored to its original location", "idempotence", "which abutting fragments Push merges (partial3 meets partial5)", "that the residues covered by each class are unchanged")
 	})
 }
